@@ -80,7 +80,32 @@ def _detach(out, args, kwargs):
     return keep
 
 
-def wrap(fn):
+def _agree(a, b, depth=0):
+    """first and second result of the same call: None = not comparable, else True / False"""
+    if isinstance(a, np.ndarray) and isinstance(b, np.ndarray):
+        if a.shape != b.shape:
+            return False
+        if a.dtype.kind in "fc" or b.dtype.kind in "fc":
+            scale = max(1.0, float(np.max(np.abs(a))) if a.size and np.all(np.isfinite(a)) else 1.0)
+            return bool(np.allclose(a, b, rtol=0, atol=1e-10 * scale, equal_nan=True))
+        return bool(np.array_equal(a, b))
+    if isinstance(a, (bool, np.bool_)) and isinstance(b, (bool, np.bool_)):
+        return bool(a) == bool(b)
+    if isinstance(a, (int, float, complex, np.number)) and isinstance(b, (int, float, complex, np.number)):
+        if not (np.isfinite(a) and np.isfinite(b)):
+            return None
+        return bool(abs(complex(a) - complex(b)) <= 1e-10 * max(1.0, abs(complex(a))))
+    if isinstance(a, (list, tuple)) and isinstance(b, (list, tuple)) and depth < 3:
+        if len(a) != len(b):
+            return False
+        rs = [_agree(x, y, depth + 1) for x, y in zip(a, b)]
+        if any(r is False for r in rs):
+            return False
+        return True if rs and all(r is True for r in rs) else None
+    return None
+
+
+def wrap(fn, twice=False):
     name = fn.__name__
 
     @functools.wraps(fn)
@@ -100,17 +125,35 @@ def wrap(fn):
         for k, s in ksnaps.items():
             if not _same(s, kwargs[k]):
                 raise Violation(f"{name} modified its argument `{k}`, which belongs to the caller", "args-mutated:" + name)
-        return _detach(out, args, kwargs)
+        keep = _detach(out, args, kwargs)
+        if twice:
+            # the identical call again, after the first result has been handed over (and the library's own copy of it
+            # poisoned): a deterministic function must return the same thing
+            _state.depth = 1
+            try:
+                again = fn(*args, **kwargs)
+            except Exception:  # noqa: BLE001  (the first call succeeded: a failing repeat is history dependence as well)
+                _state.depth = 0
+                raise Violation(f"{name}: the identical call succeeded once and raised when repeated", "history-dependent:" + name) from None
+            finally:
+                _state.depth = 0
+            if _agree(keep, again) is False:
+                raise Violation(f"{name}: two identical calls returned different results (the second one after the first result had been handed to the caller)", "history-dependent:" + name)
+        return keep
 
     wrapper._tqv_pure = True
     return wrapper
 
 
-def install(*packages):
+def install(*packages, twice=False, skip_twice=()):
+    """``twice=True``: additionally repeat every (outermost) call and require the same result - only for packages whose
+    functions are deterministic and cheap (no unseeded randomness, no SDP); ``skip_twice`` names exceptions."""
     for pkg in packages:
         mod = importlib.import_module(pkg)
         for name, obj in list(vars(mod).items()):
             if name.startswith("_") or getattr(obj, "_tqv_pure", False):
                 continue
-            if inspect.isfunction(obj) and (obj.__module__ or "").startswith("toqito"):
-                setattr(mod, name, wrap(obj))
+            plain = inspect.isfunction(obj)
+            decorated = callable(obj) and not inspect.isclass(obj) and hasattr(obj, "__wrapped__")  # e.g. functools.lru_cache
+            if (plain or decorated) and (getattr(obj, "__module__", "") or "").startswith("toqito"):
+                setattr(mod, name, wrap(obj, twice=twice and name not in skip_twice))
